@@ -44,7 +44,9 @@ def snapshot(b: gram.Built, g):
     weights = sorted((str(c05.sym_of(b, s)), round(float(w), 12)) for s, w in g.get_weights().items())
     return {"start": str(c05.sym_of(b, g.starting_symbol)), "alts": alts, "dist": dist, "rec": rec, "terminals": c05.syms(b, g.terminals),
             "nonterminals": c05.syms(b, g.non_terminals), "weights": weights, "nodes": c05.syms(b, g.all_nodes),
-            "refinements": refinement_state(b.classes)}
+            "refinements": refinement_state(b.classes),
+            # (entries of the minimum-depth table for anything that is not a registered symbol: none after extraction, none later)
+            "dist_other": sorted((str(k), v) for k, v in g.distanceToTerminal.items() if k not in g.all_nodes)}
 
 
 def refinement_state(classes):
